@@ -132,8 +132,9 @@ def measure (n : Nat) (s : St α β) : Nat :=
     Case line:  `n=<n> pool=<nil|int> mode=<o|r> ty=<i|s> hold=<0|1> seed=<k>`
     The list is `elem seed i` for `i < n`; `f x = 3x+1` (ints) / `x ↦ x ++ "!"` (strings `s%03d`).
     Observation: `res=[…] once=ok maxc=<…> after=ok`; the result is sorted in RandomOrder mode.
-    `hold=1`: every call of `f` waits until as many calls are in progress as there are workers, so the maximal
-    number of concurrent applications is exactly the worker count and is printed (`maxc=<w>`);
+    `hold=1`: every call of `f` waits until as many calls are in progress as the statement allows workers, so the maximal
+    number of concurrent applications is exactly the worker count; the harness prints `maxc=ok` when it is within the
+    bound and `maxc=<k>` when it is not;
     `hold=2`: completion order forced to be descending by value (only generated when all n applications can be in flight);
     `hold=0`: data-dependent sleeps, the harness prints `maxc=ok` when its gauge never exceeded the bound. -/
 
@@ -184,10 +185,18 @@ def canon (c : Case) (l : List Nat) : List Nat := if c.random then l.mergeSort l
 def obsLine (c : Case) (out : List Nat) (maxc : String) : String :=
   s!"res={render c (canon c out)} once=ok maxc={maxc} after=ok"
 
-/-- implementation-model side of the observable: the worker count by the code's rule and the output every terminal
-    state of the goroutine system yields (`Props/C16`), canonicalised -/
+/-- the statement's bound on the number of goroutines: `min(FixedPool, n)` for a positive pool size, `n` otherwise -/
+def specWorkers (pool : Option Int) (n : Nat) : Nat :=
+  match pool with
+  | some p => if 0 < p then min p.toNat n else n
+  | none => n
+
+/-- implementation-model side of the observable: the output every terminal state of the goroutine system yields
+    (`Props/C16`), canonicalised, and the reading of the harness' concurrency gauge for the worker count of the code's rule:
+    the harness prints `ok` while the gauge stays within the statement's bound (fewer goroutines are permitted) and the
+    maximum otherwise — under the barrier (`hold=1`) the maximum is the worker count -/
 def expectedObs (c : Case) : String :=
-  obsLine c (inputList c) (if c.hold then toString (workerCount c.pool c.n) else "ok")
+  obsLine c (inputList c) (if workerCount c.pool c.n ≤ specWorkers c.pool c.n then "ok" else toString (workerCount c.pool c.n))
 
 def handle (line : String) : String :=
   match parseCase line with
@@ -197,11 +206,6 @@ def handle (line : String) : String :=
 /-! ### Spec-level oracle: `Map(f, list)` (a permutation of it in RandomOrder mode — compared sorted), at most
     `min(FixedPool, n)` goroutines (`n` when no pool size is given), every element once, returns after all
     applications finished. -/
-def specWorkers (pool : Option Int) (n : Nat) : Nat :=
-  match pool with
-  | some p => if 0 < p then min p.toNat n else n
-  | none => n
-
 /-- does the implementation's `maxc=` token respect the bound?  (`ok`, or a number ≤ the bound) -/
 def maxcAllowed (tok : String) (bound : Nat) : Bool :=
   tok = "ok" || (match tok.toNat? with | some k => k ≤ bound | none => false)
